@@ -573,6 +573,44 @@ def term_expr(spec):
     raise ValueError('unknown term kind ' + k)
 
 
+def spec_images(spec, point):
+    """independent images of a term spec (own tables; lcapy is not involved)"""
+    s0 = point['s']
+    k = spec['k']
+    if k == 'tsum':
+        out = []
+        for sub in spec['terms']:
+            out += spec_images(sub, point)
+        return out
+    c = sp.Rational(spec['c'])
+    if k == 'noise':
+        return [{'key': spec['nid'], 'amp': [fr(c), '0/1']}]
+    if k == 'sdom':
+        return [{'key': 's', 'cls': 'x', 'w': None, 't': '0/1', 's': fr(c / (s0 + sp.Rational(spec['a']))), 'ph': None}]
+    if k == 'phasor':
+        a, b = c, sp.Rational(spec.get('ci', '0'))
+        w = sp.Rational(spec['w'])
+        return [{'key': 'w:' + fr(w), 'cls': 'ac', 'w': fr(w), 't': fr(a * rho(sp.cos(w * T)) - b * rho(sp.sin(w * T))),
+                 's': fr((a * s0 - b * w) / (s0 ** 2 + w ** 2)), 'ph': [fr(a), fr(b)]}]
+    if k == 'const':
+        e, cls, w, ph = c, 'dc', None, None
+    elif k == 'cos':
+        w = sp.Rational(spec['w'])
+        e, cls, ph = c * sp.cos(w * T), 'ac', [fr(c), '0/1']
+    elif k == 'sin':
+        w = sp.Rational(spec['w'])
+        e, cls, ph = c * sp.sin(w * T), 'ac', ['0/1', fr(-c)]
+    elif k == 'step':
+        e, cls, w, ph = c * sp.Heaviside(T), 'x', None, None
+    elif k == 'exp':
+        e, cls, w, ph = c * sp.exp(-sp.Rational(spec['a']) * T) * sp.Heaviside(T), 'x', None, None
+    elif k == 'ramp':
+        e, cls, w, ph = c * T * sp.Heaviside(T), 'x', None, None
+    else:
+        raise ValueError('unknown term kind ' + k)
+    return [{'key': 't', 'cls': cls, 'w': None if w is None else fr(w), 't': fr(timg(e)), 's': fr(my_laplace(e, s0)), 'ph': ph}]
+
+
 def run_container(case):
     from lcapy.superpositionvoltage import SuperpositionVoltage
     from lcapy.superpositioncurrent import SuperpositionCurrent
@@ -580,21 +618,24 @@ def run_container(case):
     cls = SuperpositionVoltage if case.get('quantity', 'voltage') == 'voltage' else SuperpositionCurrent
     q = 'voltage' if cls is SuperpositionVoltage else 'current'
     terms = case['terms']
+    res = {'spec_images': [spec_images(t_, point) for t_ in terms]}
     parts = []
     for g in case['groups']:
         S = cls()
         for i in g:
             S.add(term_expr(terms[i]).as_quantity(q))
         parts.append(S)
+    res['groups_before'] = [sup_dump(S, point, True) for S in parts]
     tot = parts[0]
     for S in parts[1:]:
         tot = tot + S
-    res = {'total': sup_dump(tot, point, True), 'groups': [sup_dump(S, point, True) for S in parts]}
+    res['total'] = sup_dump(tot, point, True)
+    res['groups'] = [sup_dump(S, point, True, 'lite') for S in parts]
     # subtraction: total - last group == sum of the others
     if len(parts) > 1:
         try:
             diff = tot - parts[-1]
-            res['minus_last'] = sup_dump(diff, point, True)
+            res['minus_last'] = sup_dump(diff, point, True, 'lite')
         except Exception as e:
             res['minus_last'] = {'error': type(e).__name__ + ': ' + str(e)[:100]}
     return res
